@@ -156,6 +156,7 @@ type ClientState struct {
 	open            context.Context      // indicate that the client is open for packet exchange
 	cancelOpen      context.CancelFunc   // cancel function for open context
 	outboundQty     int32                // number of messages currently in the outbound queue
+	discWritten     bool                 // a DISCONNECT packet has been written: nothing may follow it (guarded by the client lock)
 	Keepalive       uint16               // the number of seconds the connection can wait
 	ServerKeepalive bool                 // keepalive was set by the server
 }
@@ -622,7 +623,13 @@ func (cl *Client) WritePacket(pk packets.Packet) error {
 	n, err := func() (int64, error) {
 		cl.Lock()
 		defer cl.Unlock()
-		if len(cl.State.outbound) == 0 {
+		if cl.State.discWritten {
+			return 0, ErrConnectionClosed // [MQTT-3.14.4-1] no more packets after a DISCONNECT
+		}
+
+		last := pk.FixedHeader.Type == packets.Disconnect
+		cl.State.discWritten = last
+		if len(cl.State.outbound) == 0 || last { // a DISCONNECT is not left waiting in the buffer for later writes
 			if cl.Net.outbuf == nil {
 				return buf.WriteTo(cl.Net.Conn)
 			}
